@@ -140,7 +140,7 @@ def build_shared(spec, out, cwd, soname=None, extra=()):
     args = ["-shared", "-o", out, o, *extra]
     if soname:
         args += ["-soname", soname]
-    tools.must(tools.link("ld", args, cwd=cwd), f"building {out}")
+    tools.must(link("ld", args, cwd), f"building {out}")
     return out
 
 
@@ -164,9 +164,11 @@ class RunResult:
 
 
 def run_program(path, cwd):
-    r = tools.run_exe(path, cwd=cwd, env={"LD_LIBRARY_PATH": cwd})
+    r = tools.run_exe(path, cwd=cwd, env={"LD_LIBRARY_PATH": cwd}, timeout=30)
     if r.timed_out:
-        return RunResult(False, {}, "timeout")
+        r = tools.run_exe(path, cwd=cwd, env={"LD_LIBRARY_PATH": cwd}, timeout=120)
+    if r.timed_out:
+        raise Inconclusive(f"linked program {path} timed out (machine overloaded?)")
     if r.rc != 0:
         return RunResult(False, {}, f"rc={r.rc} {r.err[:200]}")
     return RunResult(True, parse_output(r.out))
@@ -213,3 +215,12 @@ def memo_run_case(fn):
             raise hit[1]
         return copy.deepcopy(hit[1])
     return wrapper
+
+
+def link(linker, args, cwd, env=None, timeout=240):
+    """tools.link with a generous timeout and one retry (tiny links only time out when the shared
+    machine is grossly overloaded; termination is not what these checks are about)."""
+    r = tools.link(linker, args, cwd=cwd, env=env, timeout=timeout)
+    if r.timed_out:
+        r = tools.link(linker, args, cwd=cwd, env=env, timeout=timeout)
+    return r
